@@ -59,7 +59,10 @@ def run_tlc(cwd, module, cfg=None, workers=1, heap="2g", timeout=3600, extra=())
     try:
         p = subprocess.run(cmd, cwd=cwd, stdout=subprocess.PIPE, stderr=subprocess.STDOUT, timeout=timeout, text=True)
     except subprocess.TimeoutExpired as e:
-        return 124, (e.stdout or "") + "\nTIMEOUT"
+        so = e.stdout or ""
+        if isinstance(so, bytes):
+            so = so.decode("utf-8", "replace")
+        return 124, so + "\nTIMEOUT"
     shutil.rmtree(os.path.join(cwd, "meta"), ignore_errors=True)
     return p.returncode, p.stdout
 
